@@ -173,7 +173,8 @@ def gen_cell(rseed: int, tier: str) -> Dict[str, Any]:
         "ap": g.random() < 0.5, "rend": g.choice(["default", "tagged"]),
         "chunk": f.choice([1, 2, 3, 7, 4096, 1 << 20]), "bufsize": f.choice([1, 2, 5, 16, 8192]),
         "default_encoding": f.choice(["ascii", "latin-1", "cp1252", "utf-8"]),
-        "file_encoding_by_caller": f.choice(["utf8", "utf8", "utf-8-sig"]),
+        "file_encoding_by_caller": f.choice(["utf8", "utf8", "utf8", "utf-8-sig", "latin-1", "cp1252", "utf-16"]),
+        "preamble": f.choice([0, 0, 0, 0, 0, 0, 3]),
         "real_fs": f.random() < 0.125,
         "eio_at": None,
         "wrong_types": g.sample(WRONG_TYPES, 3) if g.random() < 0.3 else [],
@@ -258,11 +259,38 @@ def execute_cell(cell: Dict[str, Any], tmp: str) -> Dict[str, Any]:
             kw = {}
             stats["fault:positional-options"] = 1
 
+        # the caller's own open file may use another codec than UTF-8 (the bytes of *that* file are encoded
+        # accordingly) and may already have been read up to some point (a preamble consumed by the caller)
+        enc_h = cell["file_encoding_by_caller"]
+        try:
+            body_h = (("\ufeff" if cell["bom"] else "") + text.replace("\n", eol)).encode(enc_h)
+        except UnicodeEncodeError:
+            enc_h = "utf8"
+            body_h = data
+        if enc_h in ("utf8", "utf-8-sig"):
+            body_h = data
+        npre = int(cell.get("preamble", 0) or 0)
+        pre_text = "Table skipped_preamble {\n  id int\n}\n" if npre else ""
+        if npre:
+            head = pre_text.replace("\n", eol).encode("utf-16-le" if enc_h == "utf-16" else enc_h if enc_h != "utf-8-sig" else "utf8")
+            if enc_h == "utf-16":
+                data_h = "".join([pre_text.replace("\n", eol), ("\ufeff" if cell["bom"] else "") + text.replace("\n", eol)]).encode("utf-16")
+            else:
+                data_h = head + body_h
+            stats["fault:handle-not-at-start"] = 1
+        else:
+            data_h = body_h
+        if enc_h not in ("utf8", "utf-8-sig"):
+            stats["fault:caller-codec-" + enc_h] = 1
+        path_h = path + ".handle"
+        with builtins.open(path_h, "wb") as fh:
+            fh.write(data_h)
+
         def file_obj() -> Any:
-            enc = cell["file_encoding_by_caller"]
-            if cell["real_fs"]:
-                return builtins.open(path, encoding=enc)
-            return fs.text(data, enc)
+            f = builtins.open(path_h, encoding=enc_h) if cell["real_fs"] else fs.text(data_h, enc_h)
+            for _ in range(npre):
+                f.readline()
+            return f
 
         shared: Dict[str, Any] = {"f": None}
 
@@ -276,6 +304,8 @@ def execute_cell(cell: Dict[str, Any], tmp: str) -> Dict[str, Any]:
                 stats["fault:shared-file-handle"] = 1
             else:
                 shared["f"].seek(0)
+                for _ in range(npre):
+                    shared["f"].readline()
             return shared["f"]
 
         class _keep:
@@ -488,7 +518,8 @@ class E2Driver:
         for k, simple in (("wrong_types", []), ("bom", False), ("ap", False), ("rend", "default"),
                           ("chunk", 1 << 20), ("bufsize", 8192), ("eio_at", None), ("real_fs", False),
                           ("fname", "schema.dbml"), ("file_encoding_by_caller", "utf8"), ("default_encoding", "utf-8"),
-                          ("eol", "\n"), ("positional", False), ("shared_handle", False), ("order", list(ROUTES))):
+                          ("eol", "\n"), ("positional", False), ("shared_handle", False), ("order", list(ROUTES)),
+                          ("preamble", 0)):
             if cell.get(k) != simple:
                 c = dict(cell)
                 c[k] = simple
